@@ -40,25 +40,30 @@ pub fn duration_parse(config: &SmartCalcConfig, tokinizer: &Tokinizer, fields: &
         };
 
         let calculated_duration = match constant_type {
-            ConstantType::Year => Duration::days(365 * duration),
+            ConstantType::Year => duration.checked_mul(365).and_then(Duration::try_days),
             ConstantType::Month => {
                 let years = duration / 12;
                 let month = duration % 12;
 
-                Duration::days((365 * years) + (30 * month))
+                Duration::try_days((365 * years) + (30 * month))
             },
             ConstantType::Day => {
                 let years = duration / 365;
                 let month = (duration % 365) / 30;
                 let day = (duration % 365) % 30;
 
-                Duration::days((365 * years) + (30 * month) + day)
+                Duration::try_days((365 * years) + (30 * month) + day)
             },
-            ConstantType::Week => Duration::weeks(duration),
-            ConstantType::Hour => Duration::hours(duration),
-            ConstantType::Minute => Duration::minutes(duration),
-            ConstantType::Second => Duration::seconds(duration),            
+            ConstantType::Week => Duration::try_weeks(duration),
+            ConstantType::Hour => Duration::try_hours(duration),
+            ConstantType::Minute => Duration::try_minutes(duration),
+            ConstantType::Second => Duration::try_seconds(duration),            
             _ => return Err("Duration type not valid".to_string()) 
+        };
+
+        let calculated_duration = match calculated_duration {
+            Some(calculated_duration) => calculated_duration,
+            None => return Err("Duration is too big".to_string())
         };
 
         return Ok(TokenType::Duration(calculated_duration));
@@ -137,13 +142,18 @@ pub fn as_duration(config: &SmartCalcConfig, tokinizer: &Tokinizer, fields: &BTr
         };
 
         let calculated_duration = match constant_type {
-            ConstantType::Day => Duration::days(duration),
-            ConstantType::Month => Duration::days(duration * 30),
-            ConstantType::Year => Duration::days(duration * 365),
-            ConstantType::Second => Duration::seconds(duration),
-            ConstantType::Minute => Duration::minutes(duration),
-            ConstantType::Hour => Duration::hours(duration),
+            ConstantType::Day => Duration::try_days(duration),
+            ConstantType::Month => duration.checked_mul(30).and_then(Duration::try_days),
+            ConstantType::Year => duration.checked_mul(365).and_then(Duration::try_days),
+            ConstantType::Second => Duration::try_seconds(duration),
+            ConstantType::Minute => Duration::try_minutes(duration),
+            ConstantType::Hour => Duration::try_hours(duration),
             _ => return Err("Duration type not valid".to_string()) 
+        };
+
+        let calculated_duration = match calculated_duration {
+            Some(calculated_duration) => calculated_duration,
+            None => return Err("Duration is too big".to_string())
         };
 
         return Ok(TokenType::Duration(calculated_duration));
